@@ -1382,4 +1382,323 @@ theorem loadChars_l1_breaks (n : PNode) (h : n.l1 = true) (g : Nat) (b : Break) 
   exact h0
 
 
+/-! ## Layer 2, first step: a root block sequence of layer-1 items -/
+
+/-- What the line-level parser needs to know about an inline node's text. -/
+structure InlineFacts (X : Str) (nd : Node) : Prop where
+  head : ∃ c r, X = c :: r ∧ headClass c
+  ok : X.all okc = true
+  dash : isDash X = false
+  key : splitKey X = .ok none
+  inl : parseInline X = .ok nd
+
+theorem inlineFacts_l1 (n : PNode) (h : n.l1 = true) : InlineFacts n.flow n.node := by
+  cases n with
+  | null v =>
+    have ht := tokOk_nullText v (by simpa [PNode.l1] using h)
+    obtain ⟨h1, h2, h3⟩ := inline_tok _ ht
+    exact ⟨headClass_tok _ ht, okc_tok _ ht, h1, h2, h3⟩
+  | bool b v =>
+    have ht := tokOk_boolText b v
+    obtain ⟨h1, h2, h3⟩ := inline_tok _ ht
+    exact ⟨headClass_tok _ ht, okc_tok _ ht, h1, h2, h3⟩
+  | int i v =>
+    have ht := tokOk_intText i v (by simpa [PNode.l1] using h)
+    obtain ⟨h1, h2, h3⟩ := inline_tok _ ht
+    exact ⟨headClass_tok _ ht, okc_tok _ ht, h1, h2, h3⟩
+  | str s st =>
+    cases st <;> simp [PNode.l1] at h
+    rename_i sh eu
+    obtain ⟨h1, h2, h3⟩ := inline_dq sh eu s
+    exact ⟨⟨'"', _, rfl, Or.inr (Or.inl rfl)⟩, okc_dqText sh eu s, h1, h2, h3⟩
+  | seq fl st c items =>
+    have hfl : fl = true := by cases fl <;> simp [PNode.l1] at h ⊢
+    subst hfl
+    obtain ⟨h1, h2, h3⟩ := inline_coll _ h '[' _ rfl (Or.inl rfl)
+    exact ⟨⟨'[', _, rfl, Or.inr (Or.inr (Or.inl rfl))⟩, okc_flow _ h, h1, h2, h3⟩
+  | map fl st c es =>
+    have hfl : fl = true := by cases fl <;> simp [PNode.l1] at h ⊢
+    subst hfl
+    obtain ⟨h1, h2, h3⟩ := inline_coll _ h '{' _ rfl (Or.inr rfl)
+    exact ⟨⟨'{', _, rfl, Or.inr (Or.inr (Or.inr rfl))⟩, okc_flow _ h, h1, h2, h3⟩
+  | anchored a n => simp [PNode.l1] at h
+  | alias a t => simp [PNode.l1] at h
+
+/-- An inline node after an indicator (`-`, `key:`), on a line followed by `ls`. -/
+theorem parseAfter_inline (f g col pn : Nat) (cOk sSame : Bool) (X : Str) (nd : Node) (ls : List Line)
+    (hf : InlineFacts X nd) :
+    parseAfter (f + 1) (spaces (g + 1) ++ X) col pn cOk sSame ls = .ok (nd, ls) := by
+  obtain ⟨⟨c, r, rfl, hc⟩, hok, hdash, hkey, hinl⟩ := hf
+  have hsp : c ≠ ' ' := headClass_ne c hc ' ' (by decide)
+  have htab : c ≠ '\t' := headClass_ne c hc '\t' (by decide)
+  have hhash : c ≠ '#' := headClass_ne c hc '#' (by decide)
+  have hbar : c ≠ '|' := headClass_ne c hc '|' (by decide)
+  have hgt : c ≠ '>' := headClass_ne c hc '>' (by decide)
+  have hamp : c ≠ '&' := headClass_ne c hc '&' (by decide)
+  have hds : dropSpaces (spaces (g + 1) ++ c :: r) = c :: r := dropSpaces_spaces (g + 1) c r hsp
+  rw [parseAfter]
+  simp only [hds, List.head?_cons, show (some c == some '\t') = false by simp [htab],
+    Bool.false_eq_true, if_false, List.isEmpty_cons, show (some c == some '#') = false by simp [hhash],
+    Bool.false_and, Bool.or_self]
+  split
+  · rename_i heq; exact absurd (List.cons.inj heq).1 hbar
+  · rename_i heq; exact absurd (List.cons.inj heq).1 hgt
+  · rename_i heq; exact absurd (List.cons.inj heq).1 hamp
+  · simp only [hdash, Bool.false_eq_true, if_false, hkey, hinl]
+    rfl
+
+
+/-! ### lines -/
+
+def joinLines (ls : List Str) : Str := ls.flatMap (· ++ ['\n'])
+
+theorem splitNl_ne_nil (s : Str) : splitNl s ≠ [] := by
+  cases s with
+  | nil => simp [splitNl]
+  | cons c r =>
+    simp only [splitNl]
+    split <;> (try split) <;> simp
+
+theorem splitNl_cons_line (L R : Str) (h : L.all okc = true) : splitNl (L ++ '\n' :: R) = L :: splitNl R := by
+  induction L with
+  | nil =>
+    simp only [List.nil_append, splitNl]
+    cases hs : splitNl R with
+    | nil => exact absurd hs (splitNl_ne_nil R)
+    | cons l ls => simp
+  | cons c t ih =>
+    simp only [List.all_cons, Bool.and_eq_true] at h
+    have hc : c ≠ '\n' := by
+      have := h.1; simp only [okc, Bool.and_eq_true, bne_iff_ne] at this; exact this.1
+    simp only [List.cons_append, splitNl, ih h.2]
+    simp [hc]
+
+theorem splitNl_join (ls : List Str) (h : ∀ l ∈ ls, l.all okc = true) : splitNl (joinLines ls) = ls ++ [[]] := by
+  induction ls with
+  | nil => simp [joinLines, splitNl]
+  | cons L ls ih =>
+    have h1 := h L (by simp)
+    have h2 : ∀ l ∈ ls, l.all okc = true := fun l hl => h l (by simp [hl])
+    have : joinLines (L :: ls) = L ++ '\n' :: joinLines ls := by simp [joinLines]
+    rw [this, splitNl_cons_line L _ h1, ih h2]; simp
+
+theorem linesOf_join (ls : List Str) (h : ∀ l ∈ ls, l.all okc = true) : linesOf (joinLines ls) = ls.map mkLine := by
+  unfold linesOf
+  rw [splitNl_join ls h]
+  simp
+
+theorem mkLine_dash (t : Str) : mkLine ('-' :: t) = ⟨0, '-' :: t⟩ := by
+  simp [mkLine, List.takeWhile_cons, List.dropWhile_cons]
+
+/-! ### the sequence -/
+
+/-- Items that are layer-1 nodes without filler lines or trailing comments. -/
+def PItems.flat1 : PItems → Bool
+  | .nil => true
+  | .cons m x r => m.fill.isEmpty && m.trail.isNone && x.l1 && r.flat1
+
+def seqLine (g : Nat) (x : PNode) : Str := '-' :: (spaces (g + 1) ++ x.flow)
+
+def PItems.seqLines : PItems → List Str
+  | .nil => []
+  | .cons m x r => seqLine m.gap x :: r.seqLines
+
+theorem value_l1' (n : PNode) (h : n.l1 = true) (ctx : Ctx) (e col : Nat) (m : Meta) :
+    n.value ctx e col m = spaces (m.gap + 1) ++ n.flow ++ trailText m.trail ++ ['\n'] := by
+  cases n with
+  | null v =>
+    have hv : ¬ (v % 5 = 4) := by simpa [PNode.l1] using h
+    simp [PNode.value, PNode.flow, hv]
+  | bool b v => simp [PNode.value, PNode.flow]
+  | int i v => simp [PNode.value, PNode.flow]
+  | str s st =>
+    cases st <;> simp [PNode.l1] at h
+    simp [PNode.value, PNode.flow]
+  | seq fl st c items =>
+    have hfl : fl = true := by cases fl <;> simp [PNode.l1] at h ⊢
+    subst hfl; simp [PNode.value]
+  | map fl st c es =>
+    have hfl : fl = true := by cases fl <;> simp [PNode.l1] at h ⊢
+    subst hfl; simp [PNode.value]
+  | anchored a n => simp [PNode.l1] at h
+  | alias a t => simp [PNode.l1] at h
+
+theorem block_flat1 : (items : PItems) → items.flat1 = true → items.block true 0 = joinLines items.seqLines
+  | .nil, _ => by simp [PItems.block, PItems.seqLines, joinLines]
+  | .cons m x r, h => by
+    simp only [PItems.flat1, Bool.and_eq_true, List.isEmpty_iff, Option.isNone_iff_eq_none] at h
+    obtain ⟨⟨⟨hf, ht⟩, hx⟩, hr⟩ := h
+    simp only [PItems.block, hf, fillText, List.flatMap_nil, List.nil_append, if_true, spaces, List.replicate_zero,
+      value_l1' x hx, ht, trailText, List.append_nil, block_flat1 r hr, PItems.seqLines, joinLines, List.flatMap_cons, seqLine]
+    simp [spaces]
+
+theorem seqLines_ok : (items : PItems) → items.flat1 = true → ∀ l ∈ items.seqLines, l.all okc = true
+  | .nil, _ => by simp [PItems.seqLines]
+  | .cons m x r, h => by
+    simp only [PItems.flat1, Bool.and_eq_true] at h
+    obtain ⟨⟨_, hx⟩, hr⟩ := h
+    intro l hl
+    simp only [PItems.seqLines, List.mem_cons] at hl
+    rcases hl with rfl | hl
+    · simp only [seqLine, List.all_cons, List.all_append, okc_spaces, okc_flow x hx, Bool.and_true]; decide
+    · exact seqLines_ok r hr l hl
+
+def PItems.seqLS (items : PItems) : List Line := items.seqLines.map fun t => ⟨0, t⟩
+
+theorem parseSeq_flat1 : (items : PItems) → items.flat1 = true → ∀ (f : Nat) (acc : List Node), 2 * items.seqLines.length + 2 ≤ f →
+    parseSeq f 0 items.seqLS acc = .ok (.seq (acc.reverse ++ items.nodes), [])
+  | .nil, _, f, acc, hf => by
+    obtain ⟨f', rfl⟩ : ∃ f', f = f' + 1 := ⟨f - 1, by omega⟩
+    simp [parseSeq, PItems.seqLS, PItems.seqLines, skipFill, PItems.nodes]
+  | .cons m x r, h, f, acc, hf => by
+    simp only [PItems.flat1, Bool.and_eq_true] at h
+    obtain ⟨⟨_, hx⟩, hr⟩ := h
+    simp only [PItems.seqLines, List.length_cons] at hf
+    obtain ⟨f', rfl⟩ : ∃ f', f = f' + 2 := ⟨f - 2, by omega⟩
+    have hpa := parseAfter_inline f' m.gap 1 1 true false x.flow x.node r.seqLS (inlineFacts_l1 x hx)
+    rw [parseSeq]
+    simp only [PItems.seqLS, PItems.seqLines, List.map_cons, skipFill, Line.isFiller, seqLine, List.isEmpty_cons,
+      List.head?_cons, Bool.false_or, show (some '-' == some '#') = false by decide, Bool.false_eq_true, if_false,
+      Nat.lt_irrefl]
+    simp only [PItems.seqLS] at hpa
+    have hd : isDash ('-' :: (spaces (m.gap + 1) ++ x.flow)) = true := by
+      have hs : spaces (m.gap + 1) = ' ' :: spaces m.gap := by simp [spaces, List.replicate_succ]
+      rw [hs]; rfl
+    simp only [hd, Bool.not_true, Bool.false_eq_true, if_false, List.drop_one, List.tail_cons, hpa]
+    have := parseSeq_flat1 r hr (f' + 1) (x.node :: acc) (by omega)
+    simp only [PItems.seqLS] at this
+    rw [this]; simp [PItems.nodes]
+
+
+/-! ### the document -/
+
+theorem flat1_l1 : (items : PItems) → items.flat1 = true → items.l1 = true
+  | .nil, _ => rfl
+  | .cons m x r, h => by
+    simp only [PItems.flat1, Bool.and_eq_true] at h
+    simp [PItems.l1, h.1.2, flat1_l1 r h.2]
+
+theorem seqLine_notMarker (g : Nat) (x : PNode) :
+    isDocStart ⟨0, seqLine g x⟩ = false ∧ isDocEnd ⟨0, seqLine g x⟩ = false ∧ Line.isFiller ⟨0, seqLine g x⟩ = false := by
+  have hs : spaces (g + 1) = ' ' :: spaces g := by simp [spaces, List.replicate_succ]
+  have e1 : "---".toList = ['-', '-', '-'] := by decide
+  have e2 : "...".toList = ['.', '.', '.'] := by decide
+  refine ⟨?_, ?_, ?_⟩
+  · simp only [isDocStart, isMarker, seqLine, hs, e1, List.cons_append, List.isPrefixOf]
+    simp
+  · simp only [isDocEnd, isMarker, seqLine, e2, List.isPrefixOf]
+    simp
+  · simp [Line.isFiller, seqLine]
+
+theorem takeDoc_seqLS : (items : PItems) → takeDoc items.seqLS = (items.seqLS, [])
+  | .nil => by simp [PItems.seqLS, PItems.seqLines, takeDoc]
+  | .cons m x r => by
+    obtain ⟨h1, h2, _⟩ := seqLine_notMarker m.gap x
+    have ih := takeDoc_seqLS r
+    simp only [PItems.seqLS, PItems.seqLines, List.map_cons, takeDoc, h1, h2, Bool.or_self, Bool.false_eq_true, if_false] at ih ⊢
+    rw [ih]
+
+theorem foldl_fuel_ge (ls : List Line) (a : Nat) :
+    a + 2 * ls.length ≤ ls.foldl (fun a l => a + l.txt.length + 2) a := by
+  induction ls generalizing a with
+  | nil => simp
+  | cons l ls ih =>
+    simp only [List.foldl_cons, List.length_cons]
+    have := ih (a + l.txt.length + 2)
+    omega
+
+/-- A block whose first line is a sequence entry at column 0 is read by `parseSeq`. -/
+theorem parseBlock_dash (F : Nat) (l : Line) (rest : List Line) (res : R (Node × List Line))
+    (hind : l.ind = 0) (hfill : l.isFiller = false) (htab : l.txt.head? ≠ some '\t') (hd : isDash l.txt = true)
+    (hseq : parseSeq F 0 (l :: rest) [] = res) :
+    parseBlock (F + 1) 0 false (l :: rest) = res := by
+  rw [parseBlock]
+  simp only [skipFill, hfill, Bool.false_eq_true, if_false]
+  have ht : (l.txt.head? == some '\t') = false := by simpa using htab
+  simp only [ht, Bool.false_eq_true, if_false, hind, hd, Nat.not_lt_zero, Bool.and_true, Bool.false_and,
+    show (0 + 1 = 0) = False by simp, decide_false, if_true]
+  exact hseq
+
+theorem parseDocs_oneDoc (f : Nat) (l : Line) (rest : List Line) (nd : Node)
+    (hfill : l.isFiller = false) (hpct : l.txt.head? ≠ some '%') (hs : isDocStart l = false) (he : isDocEnd l = false)
+    (htd : takeDoc (l :: rest) = (l :: rest, []))
+    (hbody : parseDocBody none (l :: rest) = .ok nd) :
+    parseDocs (f + 2) (l :: rest) = .ok [nd] := by
+  rw [parseDocs]
+  have hp : (l.txt.head? == some '%') = false := by simpa using hpct
+  simp only [skipFill, hfill, Bool.false_eq_true, if_false, hp, Bool.false_and, he, hs, htd, hbody]
+  simp [parseDocs, skipFill, Except.map]
+
+theorem parseDocs_seq (m : Meta) (x : PNode) (r : PItems) (h : (PItems.cons m x r).flat1 = true) (f : Nat) :
+    parseDocs (f + 2) (PItems.cons m x r).seqLS = .ok [.seq (PItems.cons m x r).nodes] := by
+  obtain ⟨h1, h2, h3⟩ := seqLine_notMarker m.gap x
+  have hd : isDash (seqLine m.gap x) = true := by
+    have hs : spaces (m.gap + 1) = ' ' :: spaces m.gap := by simp [spaces, List.replicate_succ]
+    simp only [seqLine, hs]; rfl
+  have hLS : (PItems.cons m x r).seqLS = ⟨0, seqLine m.gap x⟩ :: r.seqLS := by simp [PItems.seqLS, PItems.seqLines]
+  have hbody : parseDocBody none (PItems.cons m x r).seqLS = .ok (.seq (PItems.cons m x r).nodes) := by
+    unfold parseDocBody
+    have hge := foldl_fuel_ge (PItems.cons m x r).seqLS 0
+    have hlen : (PItems.cons m x r).seqLS.length = (PItems.cons m x r).seqLines.length := by simp [PItems.seqLS]
+    obtain ⟨F, hF⟩ : ∃ F, fuelOf (PItems.cons m x r).seqLS + (Option.getD (none : Option Str) []).length * 2 = F + 1 :=
+      ⟨fuelOf (PItems.cons m x r).seqLS - 1, by simp [fuelOf]⟩
+    have hFge : 2 * (PItems.cons m x r).seqLines.length + 2 ≤ F := by
+      simp only [fuelOf, Option.getD_none, List.length_nil, Nat.zero_mul, Nat.add_zero] at hF
+      omega
+    simp only [hF]
+    have hseq := parseSeq_flat1 (PItems.cons m x r) h F [] hFge
+    rw [hLS] at hseq ⊢
+    rw [parseBlock_dash F _ _ _ rfl h3 (by simp [seqLine]) hd hseq]
+    simp [skipFill]
+  rw [hLS] at hbody ⊢
+  have htd := takeDoc_seqLS (PItems.cons m x r)
+  rw [hLS] at htd
+  exact parseDocs_oneDoc f _ _ _ h3 (by simp [seqLine]) h1 h2 htd hbody
+
+
+/-- One bare document whose root is a block sequence (entries at column 0). -/
+def seqStream (items : PItems) (st : Nat) : PStream := { docs := [{ root := .seq false st false items }] }
+
+theorem chars_seqStream (items : PItems) (st : Nat) (h : items.flat1 = true) :
+    (seqStream items st).chars = joinLines items.seqLines := by
+  simp only [PStream.chars, seqStream, List.flatMap_cons, List.flatMap_nil, List.append_nil, flatMap_lf]
+  simp only [PDoc.text, fillText, List.flatMap_nil, List.nil_append, Bool.false_eq_true, if_false, PNode.isBlockColl,
+    Option.isNone_none, Bool.and_self, if_true, PNode.value, trailText, List.append_nil, List.cons_append,
+    List.drop_succ_cons, List.drop_zero]
+  exact block_flat1 items h
+
+theorem nocr_join (ls : List Str) (h : ∀ l ∈ ls, l.all okc = true) : (joinLines ls).all (· != '\r') = true := by
+  rw [List.all_eq_true]
+  intro c hc
+  obtain ⟨l, hl, hcl⟩ := List.mem_flatMap.mp hc
+  rcases List.mem_append.mp hcl with h1 | h1
+  · have := List.all_eq_true.mp (h l hl) c h1
+    simp only [okc, Bool.and_eq_true] at this; exact this.2
+  · simp at h1; subst h1; decide
+
+theorem seqLines_map_mkLine : (items : PItems) → items.seqLines.map mkLine = items.seqLS
+  | .nil => rfl
+  | .cons m x r => by
+    have ih := seqLines_map_mkLine r
+    simp only [PItems.seqLS] at ih ⊢
+    simp only [PItems.seqLines, List.map_cons, seqLine, mkLine_dash, ih]
+
+/-- Layer 2, block sequences: a bare document whose root is a block sequence of layer-1 items loads
+back to the sequence of their trees. -/
+theorem loadChars_blockSeq (m : Meta) (x : PNode) (r : PItems) (st : Nat) (h : (PItems.cons m x r).flat1 = true) :
+    loadChars (seqStream (.cons m x r) st).chars = .ok [.seq (PItems.cons m x r).trees] := by
+  have hok := seqLines_ok _ h
+  rw [chars_seqStream _ st h]
+  unfold loadChars
+  have e0 : stripBom (joinLines (PItems.cons m x r).seqLines) = joinLines (PItems.cons m x r).seqLines := by
+    simp only [PItems.seqLines, joinLines, List.flatMap_cons, seqLine, List.cons_append]
+    rfl
+  rw [e0, normBreaks_id _ (nocr_join _ hok), linesOf_join _ hok, seqLines_map_mkLine]
+  unfold loadLines
+  have hlen : (PItems.cons m x r).seqLS.length + 2 = r.seqLS.length + 1 + 2 := by simp [PItems.seqLS, PItems.seqLines]
+  rw [hlen, parseDocs_seq m x r h]
+  simp only [resolveDocs, Node.resolve, resolveItems _ (flat1_l1 _ h) []]
+  rfl
+
+
 end SV.Yaml
